@@ -132,7 +132,11 @@ func isSimpleName(s string) bool {
 func (c *FnCtx) initObject(st *State, ref string, t types.Type) {
 	if at, ok := t.Underlying().(*types.Array); ok {
 		if kindOf(at.Elem()) == kStruct {
-			bail("array of structs allocation")
+			// the zero value of an array of structs is not written: its
+			// contents stay arbitrary (an over-approximation; typical use is
+			// the backing array of variadic arguments, filled before it is read)
+			c.note("arrays of structs are allocated with arbitrary rather than zero contents")
+			return
 		}
 		c.heapWriteRow(st, heapKey(at.Elem(), nil), sortOf(at.Elem()), ref, c.zeroArray(at.Elem()))
 		return
@@ -474,7 +478,9 @@ func (c *FnCtx) binop(fr *frame, st *State, t *ssa.BinOp) Val {
 		return boolVal(e)
 	case token.LSS, token.LEQ, token.GTR, token.GEQ:
 		if x.K == kStr {
-			bail("string ordering comparison")
+			// lexical order of strings: an uninterpreted strict order strlt,
+			// with the ground facts a proof about one comparison can need
+			return boolVal(c.strOrder(t.Op, x.S, y.S))
 		}
 		if x.K != kInt {
 			bail("ordered comparison of kind %d", x.K)
@@ -792,10 +798,12 @@ func (c *FnCtx) intBinop(st *State, op token.Token, x, y string, rt types.Type, 
 		}
 		return r
 	case token.OR, token.XOR:
-		if !ii.signed && xv != nil && yv != nil {
+		if xv != nil && yv != nil {
 			l1, h1 := bitSupport(xv, 0)
 			l2, h2 := bitSupport(yv, 0)
-			if h1 <= l2 || h2 <= l1 || h1 == 0 || h2 == 0 {
+			// signed operands: only when both supports stay below the sign bit
+			// (both values are then non-negative and so is their sum)
+			if (!ii.signed || (h1 < 63 && h2 < 63 && (ii.bits == 0 || (h1 < ii.bits-1 && h2 < ii.bits-1)))) && (h1 <= l2 || h2 <= l1 || h1 == 0 || h2 == 0) {
 				return c.def("a", "Int", add(x, y))
 			}
 		}
@@ -824,6 +832,11 @@ func (c *FnCtx) intBinop(st *State, op token.Token, x, y string, rt types.Type, 
 			}
 		} else {
 			c.assume(st, ii.inRange(r))
+			if op == token.OR {
+				c.assume(st, implies(and(sx("<=", "0", x), sx("<=", "0", y)), and(sx("<=", x, r), sx("<=", y, r), sx("<=", r, add(x, y)))))
+			} else {
+				c.assume(st, implies(and(sx("<=", "0", x), sx("<=", "0", y)), and(sx("<=", "0", r), sx("<=", r, add(x, y)))))
+			}
 		}
 		// one operand statically below 2^h: if the other is a multiple of
 		// 2^h the supports are disjoint and or/xor is addition
